@@ -29,6 +29,9 @@ type forExpander struct {
 
 	symbols map[string][]token
 
+	// values of symbols resolved for the FOR counts seen so far
+	resolved map[string][]token
+
 	// output fields
 	tokens chan token
 }
@@ -39,7 +42,7 @@ func newForExpander(lex tokenReader, symbols map[string][]token) *forExpander {
 	if symbols == nil {
 		symbols = make(map[string][]token)
 	}
-	f := &forExpander{lex: lex, symbols: symbols}
+	f := &forExpander{lex: lex, symbols: symbols, resolved: make(map[string][]token)}
 	f.next()
 	f.tokens = make(chan token)
 	go f.run()
@@ -282,7 +285,7 @@ func forFor(f *forExpander) forStateFn {
 	}
 	f.exprBuf = expr
 
-	val, err := ExpandAndEvaluate(f.exprBuf, f.symbols)
+	val, err := expandAndEvaluate(f.exprBuf, f.symbols, f.resolved)
 	if err != nil {
 		f.tokens <- token{tokError, fmt.Sprintf("%s", err)}
 		return nil
